@@ -30,6 +30,16 @@ use vh_common::{Args, Outcome, Rng, TraceWriter, Value, catch, json, read_ndjson
 pub type Op = Operation<Extensions>;
 
 
+/// Records a violation; further violations of the same (property, signature) are only counted
+/// (one replayable case per failure class, and rare classes are not crowded out of the result).
+fn viol(out: &mut Outcome, property: &str, signature: &str, detail: String, case: Value) {
+    if out.violations.iter().any(|v| v.property == property && v.signature == signature) {
+        out.violations_total += 1;
+    } else {
+        out.violation(property, signature, detail, case);
+    }
+}
+
 /// Vacuity guard: `--require a,b` makes a run without a single occurrence of counter a or b a tool error.
 fn require_counters(out: &Outcome, args: &Args) {
     if let Some(req) = args.extra.get("require") {
@@ -587,11 +597,11 @@ fn replay(args: &Args) {
         match r {
             Ok(Ok(())) => {}
             Ok(Err(e)) => {
-                out.violation("*", "pipeline-error", format!("pipeline / store error: {e}"), b.clone());
+                viol(&mut out, "*", "pipeline-error", format!("pipeline / store error: {e}"), b.clone());
                 imp = None;
             }
             Err(p) => {
-                out.violation("*", "panic", format!("the code under test panicked: {p}"), b.clone());
+                viol(&mut out, "*", "panic", format!("the code under test panicked: {p}"), b.clone());
                 imp = None;
             }
         }
@@ -707,7 +717,7 @@ async fn replay_one(imp: &Impl, b: &Value, bi: usize, out: &mut Outcome) -> Resu
         }
         let bad = !findings.is_empty();
         for (prop, sig, detail) in findings {
-            out.violation(prop, &sig, format!("event {ti} (step {si}): {detail}"), b.clone());
+            viol(out, prop, &sig, format!("event {ti} (step {si}): {detail}"), b.clone());
         }
         cur = after;
         if bad {
@@ -787,11 +797,11 @@ fn record(args: &Args) {
         match r {
             Ok(Ok(())) => {}
             Ok(Err(e)) => {
-                out.violation("*", "pipeline-error", format!("pipeline / store error: {e}"), json!({"run": run, "seed": seed.to_string()}));
+                viol(&mut out, "*", "pipeline-error", format!("pipeline / store error: {e}"), json!({"run": run, "seed": seed.to_string()}));
                 imp = None;
             }
             Err(p) => {
-                out.violation("*", "panic", format!("the code under test panicked: {p}"), json!({"run": run, "seed": seed.to_string()}));
+                viol(&mut out, "*", "panic", format!("the code under test panicked: {p}"), json!({"run": run, "seed": seed.to_string()}));
                 imp = None;
             }
         }
@@ -986,7 +996,7 @@ async fn record_one(imp: &Impl, run: usize, seed: u64, trace: &mut TraceWriter, 
             let has = imp.has(&p.op.hash).await?;
             let (findings, _) = judge_event(&mut judge, &p.info, &p.cls, &p.op, r, &sel(&cur), &sel(&after), has);
             for (prop, sig, detail) in findings {
-                out.violation(prop, &sig, detail, case.clone());
+                viol(out, prop, &sig, detail, case.clone());
             }
             if r.res != Res::Inserted {
                 out.mark_distinct(format!("{run}:{}:{}", p.info.key, r.res.name()));
@@ -1001,13 +1011,13 @@ async fn record_one(imp: &Impl, run: usize, seed: u64, trace: &mut TraceWriter, 
             let touched: BTreeSet<(String, String)> = batch.iter().map(|p| (p.info.a.clone(), p.info.l.clone())).collect();
             let outside = |rows: &BTreeSet<Row>| -> BTreeSet<Row> { rows.iter().filter(|x| !touched.contains(&(x.a.clone(), x.l.clone()))).cloned().collect() };
             if outside(&cur) != outside(&after) {
-                out.violation("C04", "rows-of-untouched-log-changed", format!("a batch touching {touched:?} changed rows of other logs"), case.clone());
+                viol(out, "C04", "rows-of-untouched-log-changed", format!("a batch touching {touched:?} changed rows of other logs"), case.clone());
             }
             let ids: Vec<Value> = after.iter().map(row_id).collect();
             trace.event(json!({"ev": "Snapshot", "store": ids}));
         }
         if after.len() as i64 != imp.total_rows().await? {
-            out.violation("C01", "stray-rows", "operations_v1 holds rows that are not reachable through the known logs".into(), case.clone());
+            viol(out, "C01", "stray-rows", "operations_v1 holds rows that are not reachable through the known logs".into(), case.clone());
         }
         cur = after;
     }
